@@ -214,6 +214,17 @@ def canon_slice(events):
     return isotrace.canon(t)[:-1]
 
 
+class Ema(object):
+    """a stateful indicator the strategy keeps in its context and CALLS like a function (picklable: module level)"""
+    def __init__(self, alpha):
+        self.alpha, self.n, self.value = alpha, 0, None
+
+    def __call__(self, x):
+        self.n += 1
+        self.value = x if self.value is None else self.alpha * x + (1 - self.alpha) * self.value
+        return self.value
+
+
 def run_leg(S, cfgk, seed, with_an, start, end, persist, resume):
     """one leg of a stop/resume pair (module level: the resumed leg can also be run by harness/resume_worker.py in a fresh process)"""
     kk = dict(cfgk, start=start, end=end)
@@ -233,6 +244,7 @@ def run_leg(S, cfgk, seed, with_an, start, end, persist, resume):
             init0(context)
             context.bars_seen = 0
             context.flag = False
+            context.ema = Ema(0.3)
             context.positions_at_init = len(context.portfolio.positions)       # the mapping is touched before the state is restored
             env = Environment.get_instance()
             log = lambda name: (lambda c, b: tr.events.append(("SCHEDULED", {"cal": env.calendar_dt, "rule": name, "bars_seen": c.bars_seen})))
@@ -240,23 +252,29 @@ def run_leg(S, cfgk, seed, with_an, start, end, persist, resume):
             api.scheduler.run_weekly(log("weekly_td2"), tradingday=2)
             api.scheduler.run_weekly(log("weekly_last"), tradingday=-1)
             api.scheduler.run_monthly(log("monthly_td3"), tradingday=3)
+            # a rule at 09:05: inside the sessions of a subscribed future (09:01-10:15) only — it fires from the day the future is subscribed (bar 2) on
+            api.scheduler.run_daily(log("daily_0905"), time_rule=api.physical_time(hour=9, minute=5))
 
         def handle_bar(context, bar_dict):
             import rqalpha.api as api
             env = Environment.get_instance()
             context.bars_seen += 1
             context.flag = (context.bars_seen % 3 == 0)
+            ema_now = context.ema(float(context.bars_seen % 5))
+            if context.bars_seen == 2 and S["futures"] and "future" in cfgk["accounts"]:
+                api.subscribe(S["futures"][0]["id"])
             universe_at_bar_start = sorted(context.universe)          # what the previous bar (or the restored state) left
             if ids_:
                 live = [i for i in ids_ if env.data_proxy.instrument(i).listed_at(env.trading_dt)] if hasattr(env.data_proxy.instrument(ids_[0]), "listed_at") else ids_
                 if context.bars_seen % 4 == 3:
                     api.update_universe([])                            # going flat: the universe is emptied
                 else:
-                    api.update_universe(live[: 1 + context.bars_seen % max(1, len(live))] or live[:1])
+                    keep_fut = [S["futures"][0]["id"]] if (context.bars_seen >= 2 and S["futures"] and "future" in cfgk["accounts"]) else []
+                    api.update_universe((live[: 1 + context.bars_seen % max(1, len(live))] or live[:1]) + keep_fut)
             held_map = {k_: (v_.quantity if hasattr(v_, "quantity") else (v_.buy_quantity, v_.sell_quantity)) for k_, v_ in context.portfolio.positions.items()
                         if (v_.quantity if hasattr(v_, "quantity") else (v_.buy_quantity or v_.sell_quantity))}
             held_api = {p_.order_book_id: p_.quantity for p_ in api.get_positions() if p_.quantity and p_.direction.name == "LONG"}
-            tr.events.append(("UNIVERSE_ORDER", {"cal": env.calendar_dt, "keys": list(bar_dict.keys()), "universe_at_bar_start": universe_at_bar_start, "bars_seen": context.bars_seen, "flag": context.flag,
+            tr.events.append(("UNIVERSE_ORDER", {"cal": env.calendar_dt, "keys": list(bar_dict.keys()), "universe_at_bar_start": universe_at_bar_start, "bars_seen": context.bars_seen, "flag": context.flag, "ema": (context.ema.n, repr(ema_now)),
                                                  "portfolio_positions": sorted(held_map.items()), "get_positions_long": sorted(held_api.items())}))
             hb0(context, bar_dict)
         return dict(handlers, init=init, handle_bar=handle_bar)
